@@ -562,6 +562,26 @@ int transformParsed(Ctx& c, const char* name, const XalanParsedSource* ps, const
 void scCtor(Ctx&) {}
 void scCompileOk(Ctx& c)        { const XalanCompiledStylesheet* cs = 0; compile(c, "compile", XSL_KEYSORT, cs); }
 void scCompileErr(Ctx& c)       { const XalanCompiledStylesheet* cs = 0; compile(c, "compile", XSL_COMPILE_ERR, cs); }
+// stylesheet errors raised from inside the constructor of an arena-allocated object (a QName whose prefix is not declared,
+// a QName whose local part is not an NCName): the half-built object must not be destroyed again when the arena is reset
+const char* const XSL_BAD_QNAME_PREFIX =
+    XSL_HEAD ">" XSL_OUT
+    "<xsl:template match=\"/\"><out><xsl:apply-templates select=\"//item\" mode=\"m\"/></out></xsl:template>"
+    "<xsl:template match=\"item\" mode=\"m\"><xsl:call-template name=\"util:emit\"/></xsl:template>"
+    "<xsl:template name=\"util:emit\"><e/></xsl:template>"
+    "</xsl:stylesheet>";
+const char* const XSL_BAD_QNAME_NCNAME =
+    XSL_HEAD ">" XSL_OUT
+    "<xsl:template match=\"/\"><out><xsl:apply-templates select=\"//item\" mode=\"2nd-pass\"/></out></xsl:template>"
+    "<xsl:template match=\"item\" mode=\"2nd-pass\"><e/></xsl:template>"
+    "</xsl:stylesheet>";
+void scCompileBadQName(Ctx& c)
+{
+    const XalanCompiledStylesheet* cs = 0;
+    compile(c, "compile", XSL_BAD_QNAME_PREFIX, cs);
+    compile(c, "compile2", XSL_BAD_QNAME_NCNAME, cs);
+    streamTransform(c, "transform", XSL_KEY, DOC);
+}
 void scCompileMalformed(Ctx& c) { const XalanCompiledStylesheet* cs = 0; compile(c, "compile", XSL_COMPILE_MALFORMED, cs); }
 void scParseNative(Ctx& c)      { const XalanParsedSource* ps = 0; parse(c, "parse", DOC, ps, false); }
 void scParseXerces(Ctx& c)      { const XalanParsedSource* ps = 0; parse(c, "parse", DOC, ps, true); }
@@ -642,6 +662,7 @@ const Scen kScens[] = {
     { "compile_ok",         scCompileOk,        true,  false },
     { "compile_err",        scCompileErr,       true,  true  },
     { "compile_malformed",  scCompileMalformed, false, false },
+    { "compile_bad_qname",  scCompileBadQName,  true,  false },
     { "parse_native",       scParseNative,      true,  false },
     { "parse_xerces",       scParseXerces,      false, false },
     { "parse_err",          scParseErr,         true,  false },
